@@ -350,3 +350,119 @@ class Pred(Abstract):
 
     def g_holds(self, I, s):
         return self.F(to_z3(s))
+
+
+# ----------------------------------------------------------------- indexed families of cursors
+
+class CursorFamily(Abstract):
+    """A python list of child matchers of symbolic length n (e.g. the per-segment matchers of a MultiMatcher).
+    Entry sets, scores and quality bounds are functions with the list index as extra argument; the positions are
+    one array (index -> position) that the members' methods update."""
+
+    def __init__(self, I, name="ms"):
+        self.name = name
+        u = I.fresh_name(name)
+        self.n = z3.Int(u + "_n")
+        self.SS = z3.Function(u + "_S", IntS, IntS, BoolS)
+        self.SC = z3.Function(u + "_sc", IntS, IntS, RealS)
+        self.WT = z3.Function(u + "_wt", IntS, IntS, RealS)
+        self.VAL = z3.Function(u + "_val", IntS, IntS, IntS)
+        self.MQ = z3.Function(u + "_mq", IntS, IntS, RealS)
+        self.BQ = z3.Function(u + "_bq", IntS, IntS, RealS)
+        self.SBQ = z3.Function(u + "_sbq", IntS, BoolS)
+        self.curs = z3.Array(I.fresh_name(u + "_cur"), IntS, IntS)
+        i, s, t = z3.Int(I.fresh_name("i")), z3.Int(I.fresh_name("s")), z3.Int(I.fresh_name("t"))
+        I.assume(self.n >= 0)
+        I.assume(INF > 0)
+        I.assume(z3.ForAll([i, s], z3.Implies(self.SS(i, s), z3.And(s >= 0, s < INF))))
+        I.assume(z3.ForAll([i, s], z3.Implies(self.SS(i, s), self.SC(i, s) >= 0)))
+        I.assume(z3.ForAll([i, s, t], z3.Implies(z3.And(self.SS(i, s), s >= t), self.SC(i, s) <= self.MQ(i, t))))
+        I.assume(z3.ForAll([i, s], z3.Implies(self.SS(i, s), self.SC(i, s) <= self.BQ(i, s))))
+        I.assume(self.all_wf())
+
+    def all_wf(self):
+        i = z3.Int("fam_i")
+        c = z3.Select(self.curs, i)
+        return z3.ForAll([i], z3.And(c >= 0, c <= INF, z3.Or(c == INF, self.SS(i, c))))
+
+    def havoc(self, I):
+        self.curs = z3.Array(I.fresh_name(self.name + "_cur"), IntS, IntS)
+        I.assume(self.all_wf())
+
+    def __deepcopy__(self, memo):
+        c = CursorFamily.__new__(CursorFamily)
+        c.__dict__.update(self.__dict__)
+        return c
+
+    def truth(self, I):
+        return self.n > 0
+
+    def is_none(self, I):
+        return False
+
+    def length(self, I):
+        return self.n
+
+    def a_n(self, I):
+        return self.n
+
+    def cur_of(self, i):
+        return z3.Select(self.curs, to_z3(i))
+
+    def getitem(self, I, idx, node=None):
+        idx = to_z3(idx)
+        if not I.in_spec and not I.decide(z3.And(idx >= 0, idx < self.n), "index-in-bounds"):
+            # (negative indices are not used on matcher lists by the verified code)
+            I.raise_builtin("IndexError", node)
+        return FamCursor(self, idx)
+
+    def iter_protocol(self, I):
+        return 0, self.n, 1, (lambda i: FamCursor(self, i))
+
+
+class FamCursor(Cursor):
+    """Member idx of a CursorFamily: the Cursor interface over the family's functions; its position lives in the
+    family's array, so advancing it is visible through every alias."""
+
+    def __init__(self, fam, idx):
+        self.fam = fam
+        self.idx = to_z3(idx)
+        self.name = "%s[%s]" % (fam.name, self.idx)
+        self.strict_skip = False
+        self.nonneg = True
+        f, i = fam, self.idx
+        self.S = lambda s: f.SS(i, s)
+        self.sc = lambda s: f.SC(i, s)
+        self.wt = lambda s: f.WT(i, s)
+        self.val = lambda s: f.VAL(i, s)
+        self.sp = lambda s: z3.IntVal(0)
+        self.mq = lambda s: f.MQ(i, s)
+        self.bq = lambda s: f.BQ(i, s)
+        self.sbq = f.SBQ(i)
+
+    @property
+    def cur(self):
+        return z3.Select(self.fam.curs, self.idx)
+
+    @cur.setter
+    def cur(self, v):
+        self.fam.curs = z3.Store(self.fam.curs, self.idx, to_z3(v))
+
+    def havoc(self, I):
+        c2 = z3.Int(I.fresh_name("famcur"))
+        I.assume(self.wf(c2))
+        self.cur = c2
+
+    def __deepcopy__(self, memo):
+        import copy as _copy
+        fam2 = memo.get(id(self.fam))
+        if fam2 is None:
+            fam2 = _copy.deepcopy(self.fam, memo)
+            memo[id(self.fam)] = fam2
+        return FamCursor(fam2, self.idx)
+
+    def m_copy(self, I):
+        raise OutsideSubset("copy() of a family member")
+
+    def m_replace(self, I, minquality=0):
+        raise OutsideSubset("replace() of a family member")
